@@ -55,7 +55,7 @@ func cmdArrayRun(args []string) {
 			from = len(ops) - 1
 		}
 		for _, op := range ops[:from] {
-			w.Exec(op)
+			w.ExecSilent(op)
 		}
 		wr.Write(w.rec(t, "Load", Op{}, Res{Class: "ok"}))
 		for _, op := range ops[from:] {
